@@ -114,6 +114,8 @@ pub struct Model {
     pub faults: BTreeMap<String, u64>,
     /// the faults of the current step, in order
     pub step_faults: Vec<String>,
+    /// a scripted contract panicked in the current step: the call unwinds to the top, nothing is caught
+    pub panicked: bool,
     /// denomination metadata set through the bank keeper's administration function (name per denomination)
     pub denom_meta: BTreeMap<String, String>,
     /// out of band: every address ever observed for a (checksum, creator, salt) triple, including in
@@ -214,6 +216,7 @@ impl Model {
             probes: BTreeMap::new(),
             faults: BTreeMap::new(),
             step_faults: vec![],
+            panicked: false,
             denom_meta: BTreeMap::new(),
             addr_fallback: None,
             addr_validator: None,
@@ -249,6 +252,7 @@ impl Model {
         self.module_calls.clear();
         self.flags.clear();
         self.step_faults.clear();
+        self.panicked = false;
         self.learned_addr.clear();
         for r in real_trace {
             if r.kind == "instantiate" {
@@ -1065,6 +1069,12 @@ impl Model {
         if depth >= 2 {
             self.probe("call_depth_ge_2");
         }
+        if node.panic {
+            // a crash inside the contract: nothing catches it, the whole top-level call unwinds
+            self.fault("contract_panic");
+            self.panicked = true;
+            return Err(());
+        }
         if node.fail {
             self.fault(&Self::entry_fault_name(entry));
             if !node.writes.is_empty() {
@@ -1136,6 +1146,9 @@ impl Model {
                         self.probe("failed_subtree_had_effects");
                     }
                     self.s = snap;
+                    if self.panicked {
+                        return Err(());
+                    }
                     if mode == 2 || mode == 3 {
                         self.fault("failure_caught");
                         if depth >= 1 {
